@@ -135,12 +135,17 @@ class Ledger:
         b, bi = s['body'], s['block']
         tb = self.tb(b)
         r = self.recv(s)
-        if r is None:
+        if r is None and s['cls'] != 'bounds':
             return None
         need = None
         coll = None
-        sr = strip_sites(detry(r))
-        if s['cls'] == 'index':
+        sr = strip_sites(detry(r)) if r is not None else None
+        if s['cls'] == 'bounds':
+            t = b.term(bi)
+            ops = [strip_sites(tb.operand_term(o, bi, len(b.blocks[bi]['stmts']))) for o in t.get('ops', [])]
+            if len(ops) == 2 and ops[0][0] == 'len' and const_int(ops[1]) is not None:
+                need, coll = const_int(ops[1]) + 1, ops[0][1]
+        elif s['cls'] == 'index':
             args = tb.call_args(bi)
             ix = strip_sites(args[1])
             k = const_int(ix)
@@ -282,7 +287,7 @@ class Ledger:
         b = s['body']
         if E[0] == 'param' and b.dk == 'Closure':
             # closure parameter bound to an element of the filtered vector
-            parent = self.F.by_path.get(b.closure_parent) if b.closure_parent else None
+            parent = self.F.closure_host(b)
             if parent is not None:
                 from . import rec
                 binds = rec.closure_bindings(self.F, parent, self.tb(parent))
@@ -645,7 +650,7 @@ class Ledger:
         b = s['body']
         if b.dk != 'Closure':
             return None
-        parent = self.F.by_path.get(b.closure_parent)
+        parent = self.F.closure_host(b)
         if parent is None:
             return None
         from . import rec
